@@ -20,6 +20,7 @@ func init() {
 			"(R4) remove*/create* helpers run only under the matching Kind test of the entry they are handed; the fall-through arm only records a problem; " +
 			"(R5) Entry.synchronizable returns the receiver itself only for non-directories or empty directories, nil for nil/unsynchronizable kinds, and otherwise a fresh entry whose children are exactly the non-nil synchronizable() images of the children; EntryKind.synchronizable is true only for Directory, File, SymbolicLink. " +
 			"(R6) file creation never replaces existing (possibly untracked) content: only swapFile asks findAndMoveStagedFileIntoPlace for a replacing move, and every Rename inside it — including the cross-device fallback — passes the caller's replace flag and targets (parent, name). " +
+			"(R7, shared with C14.R5/C15.R3) the scan's ignore decision table: ignored content is recorded as Untracked, and the ignore mask is inherited by the contents of a nominal directory, set below an ignored one and cleared only below an explicitly unignored one — content that is ignored must never be scanned as tracked (it would then be planned for removal). " +
 			"Not decided: what happens on disk under concurrent modification (C08), Docker phantom handling (C15).",
 		Assumptions: []string{"diff/synchronizable are pure"},
 		Run:         runC03,
@@ -31,6 +32,7 @@ func runC03(c *eng.Ctx) {
 	if rec == nil {
 		return
 	}
+	scanIgnoreTable(c, "R7")
 	kinds, _ := c.P.ConstsOfType(corePkg, "EntryKind")
 	problematic := kinds["EntryKind_Problematic"]
 	// R1: paths to the first "effect" (emission, recursion or handler call).
